@@ -24,6 +24,9 @@ func vhC26Addr(a *common.Address) []byte {
 
 // bound: the three bit positions of this item lie in the first WORDS 64-bit words
 func vhC26Bound(item []byte) {
+	if !sym.Symbolic() {
+		return // a bound of the symbolic exploration only: natively every position is fine
+	}
 	h := crypto.SHA3Sum256(item)
 	limit := uint16(64 * sym.Param("WORDS", 2))
 	for i := 0; i < 3; i++ {
@@ -44,8 +47,12 @@ func VH_C26_no_false_negative() {
 		nIdx := 1 + sym.Choose("indexed", sym.Param("INDEXED", 2))
 		var log [][]byte
 		for i := 0; i < nIdx; i++ {
-			v := sym.Bytes("val", 1+sym.Choose("vlen", 2))
-			vhC26Bound(vhC26Indexed(i, v))
+			v := sym.Bytes("val", sym.Choose("vlen", 3)) // 0..2 bytes: an empty (non-nil) indexed value counts too
+			if len(v) > 0 {
+				vhC26Bound(vhC26Indexed(i, v))
+			} else {
+				sym.Reach("empty-indexed-value") // concrete input: its bit positions are concrete, no bound needed
+			}
 			log = append(log, v)
 		}
 		// the receipt's bloom for this log, merged into the block's bloom
